@@ -151,8 +151,16 @@ func runC01(c *core.Ctx) {
 				q, nn, y, m.M.RelativeAccuracy(), fl, xlo, ce, xhi, relErr(y, xlo), relErr(y, xhi), m.Slack(xlo), m.Desc, sp)
 			return
 		}
-		if xlo != 0 && xhi != 0 && y != 0 {
-			c.Max("accuracy_excess_over_alpha_in_units_of_u", (math.Min(relErr(y, xlo), relErr(y, xhi))-m.M.RelativeAccuracy())/m.U(xlo))
+		if y != 0 {
+			best := math.Inf(1)
+			for _, x := range []float64{xlo, xhi} {
+				if x != 0 && m.Matches(y, x) {
+					if e := (relErr(y, x) - m.M.RelativeAccuracy()) / m.U(x); e < best {
+						best = e
+					}
+				}
+			}
+			c.Max("accuracy_excess_over_alpha_in_units_of_u", best)
 		}
 		if q == 0 || q == 1 {
 			x := sorted[0]
